@@ -16,7 +16,7 @@ type half struct {
 	closed bool
 	chunk  int    // max bytes handed out per Read (0 = unlimited)
 	total  int64  // bytes ever written
-	log    []byte // copy of everything written (tap), if tap is set
+	log    []byte // copy of what was written while the tap is on
 	tap    bool
 }
 
@@ -51,8 +51,8 @@ func (h *half) Read(p []byte) (int, error) {
 		return 0, io.EOF
 	}
 	n := len(p)
-	if h.chunk > 0 && n > h.chunk {
-		n = h.chunk
+	if h.chunk > 0 && n > h.chunk && len(h.buf) <= 512 {
+		n = h.chunk // fragment small messages only: byte-wise delivery of large ones costs time, not coverage
 	}
 	n = copy(p[:n], h.buf)
 	h.buf = h.buf[n:]
@@ -72,6 +72,10 @@ func (h *half) frames() [][]byte {
 	defer h.mu.Unlock()
 	return splitFrames(h.log)
 }
+
+// tapStart clears the tap and switches it on; tapStop switches it off.
+func (h *half) tapStart() { h.mu.Lock(); h.log, h.tap = nil, true; h.mu.Unlock() }
+func (h *half) tapStop()  { h.mu.Lock(); h.tap = false; h.mu.Unlock() }
 
 func splitFrames(b []byte) [][]byte {
 	var out [][]byte
@@ -101,6 +105,6 @@ func (c closerEnd) Close() error { c.shut(); return nil }
 // duplex returns two connected endpoints; chunk limits Read sizes in both
 // directions; the a->b direction is tapped.
 func duplex(chunk int) (a, b *end) {
-	ab, ba := newHalf(chunk, true), newHalf(chunk, false)
+	ab, ba := newHalf(chunk, false), newHalf(chunk, false)
 	return &end{r: ba, w: ab}, &end{r: ab, w: ba}
 }
